@@ -11,6 +11,9 @@ from ..core import q, qs, guarded, same, unq
 ALPHABET = [-1.0, 0.0, 1.0, 2.0, 3.0]
 SCALE = 1000.0          # lattice symbols are multiplied by this (wavelengths 1000, 2000, 3000 Angstrom)
 WAVE_ERRS = ('ZeroWavelength', 'UnsortedWavelength', 'DuplicateWavelength')
+# entry points that sample the binned observation: their wavelengths must hit bin centres exactly
+BINNED_ENTRIES = ('observation.sample_binned', 'observation.countrate(binned)', 'observation.countrate(binned, waverange)',
+                  'observation.effective_wavelength(binned)')
 UNITS = ['AA_number', 'AA', 'nm', 'micron', 'm', 'cm', 'km', 'Hz', 'THz', '1/micron', '1/cm']
 C = float(O.C)
 
@@ -35,6 +38,8 @@ def entry_points():
     flat = SourceSpectrum(ConstFlux1D, amplitude=1e-15 * units.FLAM)
     plaw = SourceSpectrum(PowerLawFlux1D, amplitude=2.0, x_0=2000, alpha=2)
     boxbp = SpectralElement(Box1D, amplitude=0.5, x_0=2500, width=800)
+    from synphot.models import Empirical1D
+    halfsrc = SourceSpectrum(Empirical1D, points=[500., 1500., 2500., 3500., 5000.], lookup_table=[0., 3., 2., 4., 1.])
     ep = {
         'source.__call__': lambda w: src(w).value,
         'source.__call__(flux_unit)': lambda w: src(w, flux_unit='flam').value,
@@ -46,6 +51,7 @@ def entry_points():
         'source.barlam': lambda w: src.barlam(wavelengths=w).value,
         'source.pivot': lambda w: src.pivot(wavelengths=w).value,
         'source.taper': lambda w: src.taper(wavelengths=w)(np.array([700., 1700., 2700.])).value,
+        'half_tapered_source.taper': lambda w: halfsrc.taper(wavelengths=w)(np.array([300., 700., 1700., 2700., 5500., 9000.])).value,
         'bandpass.__call__': lambda w: bp(w).value,
         'bandpass.integrate': lambda w: bp.integrate(wavelengths=w, integration_type='trapezoid').value,
         'bandpass.avgwave': lambda w: bp.avgwave(wavelengths=w).value,
@@ -69,6 +75,8 @@ def entry_points():
         'observation.sample_binned': lambda w: obs.sample_binned(wavelengths=w).value,
         'observation.effstim': lambda w: obs.effstim('flam', wavelengths=w).value,
         'observation.countrate(binned)': lambda w: obs.countrate(area, wavelengths=w).value,
+        'observation.countrate(binned, waverange)': lambda w: obs.countrate(area, wavelengths=w, waverange=[1500., 2500.], force=True).value,
+        'observation.countrate(unbinned, waverange)': lambda w: obs.countrate(area, binned=False, wavelengths=w, waverange=[1500., 2500.], force=True).value,
         'observation.countrate(unbinned)': lambda w: obs.countrate(area, binned=False, wavelengths=w).value,
         'observation.effective_wavelength(binned)': lambda w: obs.effective_wavelength(wavelengths=w).value,
         'observation.effective_wavelength(unbinned)': lambda w: obs.effective_wavelength(binned=False, wavelengths=w).value,
@@ -135,7 +143,7 @@ def impl_call(case):
                 w = to_unit(aa, unit)
                 r = guarded(lambda: ep()[case['entry']](w))
                 if 'ok' in r and isinstance(r['ok'], list) and order == 'desc' and len(r['ok']) == len(base) \
-                        and case['entry'] not in ('source.taper', 'bandpass.taper', 'source.normalize', 'Observation(binset)',
+                        and case['entry'] not in ('source.taper', 'bandpass.taper', 'half_tapered_source.taper', 'source.normalize', 'Observation(binset)',
                                                   'binning.calculate_bin_edges'):
                     r['ok'] = r['ok'][::-1]          # values come back in the caller's order
                 elif 'ok' in r and order == 'desc' and case['entry'] == 'binning.calculate_bin_edges':
@@ -252,7 +260,7 @@ def reject_cases():
             # the same numbers as a Quantity (the spelling of the unit must not open a way around validation)
             if len(a) <= 3 and all(x != 0 for x in a):
                 for unit in ('AA', 'nm'):
-                    if unit == 'nm' and entry == 'observation.sample_binned':
+                    if unit == 'nm' and entry in BINNED_ENTRIES:
                         continue        # bin centres must be hit exactly
                     out.append({'op': 'reject', 'entry': entry, 'w': qs(a), 'unit': unit})
     return out
@@ -276,12 +284,12 @@ def gen_equivariance(rng, count):
         if len(w) < 3:
             continue
         entry = rng.choice(names)
-        if entry == 'observation.sample_binned':
-            w = sorted(rng.sample([1000., 1500., 2000., 2500., 3000.], rng.randint(2, 5)))
+        if entry in BINNED_ENTRIES:
+            w = sorted(rng.sample([1000., 1500., 2000., 2500., 3000.], rng.randint(3 if 'waverange' in entry else 2, 5)))
         units = ['AA_number'] + rng.sample(UNITS[1:7] if entry == 'binning.calculate_bin_edges' else UNITS[1:], 3)
         if fine and rng.random() < 0.7:
             units[1] = rng.choice(['m', 'km', 'cm'])       # large length units make fine spacings numerically tiny
-        if entry == 'observation.sample_binned':
+        if entry in BINNED_ENTRIES:
             # binned samples exist only exactly at the bin centres: keep the units whose round trip to Angstrom is exact
             import astropy.units as u
             units = [x for x in units if x == 'AA_number' or
